@@ -181,3 +181,58 @@ def c12(chk):
                             canary=flip_ok_in_trace)
     chk.assumptions += ["flate2 (gzip) and multibase (base64) are trusted codecs",
                         "the window is 8 (quick) or 16 (thorough, traces) bits; other bytes are only checked to stay zero"]
+
+
+# ------------------------------------------------------------------------------------------------
+# C04 — DID document id-uniqueness, round trip, resolution
+# ------------------------------------------------------------------------------------------------
+
+def flip_doc_case(rows, k=3):
+    out = []
+    for r in rows:
+        if r.get("kind") == "step" and r["res"].get("ok") is True and r["pre"] != r["post"]:
+            r = json.loads(json.dumps(r))
+            r["post"] = r["pre"]          # claim the accepted mutation had no effect
+            out.append(r)
+            if len(out) >= k:
+                break
+    if not out:
+        raise ToolError("canary: no effective step case")
+    return out
+
+
+def corrupt_doc_trace(evs):
+    for i in range(len(evs) // 2, len(evs)):
+        e = evs[i]
+        if e["op"]["name"] == "resolve" and e["res"]["loc"] == "vm":
+            e["res"]["loc"] = "none"
+            e["res"]["idx"] = 0
+            return "event %d resolution result replaced by none" % (i + 1)
+    return flip_ok_in_trace(evs)
+
+
+@plan("C04")
+def c04(chk):
+    chk.rule = ("TLC explores every document reachable from every valid initial document (<= MaxInit entries, incl. dangling and "
+                "foreign references) over the tier's id universe x 2 relationships with all six mutations and every argument; "
+                "the four id/validity invariants are checked in every state and 'refusal leaves unchanged' on every "
+                "transition. Quick: every transition and every state's full resolution table is replayed on real documents "
+                "(deserialised and builder-built) under rotating mappings of the model relationships onto the five real ones; "
+                "thorough: all states/transitions model-checked, a random 1/24 of transitions and 1/6 of states replayed. "
+                "Distinct+non-trivial = unique (pre, op) whose op changes the document or is refused, plus unique states.")
+    mod = "MCDocument"
+    r = chk.mc(mod, "Document_%s.cfg" % chk.tier, workers=q(chk, 6, 14), timeout=q(chk, 600, 7000), heap=q(chk, "6g", "24g"))
+    chk.exhaustive = chk.tier == "quick"
+    chk.replay(r["cases_file"], timeout=7000)
+    chk.canary_cases(r["cases_file"], flip_doc_case)
+    # design-level demonstration: the unrepaired insert_method guard admits an aliased embedded method
+    if chk.tier == "thorough":
+        pre = vlib.tlc_model_check(chk.prop, mod, "Document_prefix.cfg", emit=False, workers=4, timeout=600, expect_violation=True)
+        chk.extra["prefix_design_counterexample_found"] = bool(pre["violated"])
+    n_ev, n_tr = q(chk, (2500, 2), (5000, 16))
+    record_and_validate(chk, "C04", "MCDocumentTrace", "DocumentTrace.cfg", n_ev, n_tr, "document/trace",
+                        canary=corrupt_doc_trace)
+    chk.assumptions += ["the harness' concretisation (one Ed25519 multibase method / LinkedDomains service per id) is "
+                        "representative: method content other than the id does not influence the checked behaviour",
+                        "refusals that leave the document unchanged are accepted where the model would accept (the property does "
+                        "not force acceptance)"]
